@@ -18,6 +18,8 @@ var (
 func RegisterSchema(typ reflect.Type, s Schema) {
 	schemaRegistryMutex.Lock()
 	defer schemaRegistryMutex.Unlock()
+	verifPoint("schema.w.enter")
+	defer verifPoint("schema.w.leave")
 	schemaRegistry[typ] = s
 }
 
@@ -38,6 +40,8 @@ func SchemaForType(item any) (Schema, error) {
 func isInSchemaRegistry(typ reflect.Type) (Schema, bool) {
 	schemaRegistryMutex.RLock()
 	defer schemaRegistryMutex.RUnlock()
+	verifPoint("schema.r.enter")
+	defer verifPoint("schema.r.leave")
 	s, ok := schemaRegistry[typ]
 	return s, ok
 }
